@@ -125,6 +125,7 @@ theorem tie_cacheGetCalls : cacheGetCalls = [
 /-- `Del`: under the lock the recency list, after the unlock the wheel - each with the key (CacheG.del) -/
 theorem tie_cacheDelCalls : cacheDelCalls = [
   ("call", "c.lock.Lock", []),
+  ("call", "delete", ["c.data", "key"]),
   ("call", "c.lruCache.remove", ["key"]),
   ("call", "c.lock.Unlock", []),
   ("call", "c.timingWheel.RemoveTimer", ["key"])
@@ -133,6 +134,7 @@ theorem tie_cacheDelCalls : cacheDelCalls = [
 /-- `SetWithExpire`: recency list under the lock; the jitter is applied to the expire ARGUMENT; SetTimer gets key, value and the jittered expiry (CacheG.set) -/
 theorem tie_cacheSetWithExpireCalls : cacheSetWithExpireCalls = [
   ("call", "c.lock.Lock", []),
+  ("store", "c.data", ["key", "value"]),
   ("call", "c.lruCache.add", ["key"]),
   ("call", "c.lock.Unlock", []),
   ("call", "c.unstableExpiry.AroundDuration", ["expire"]),
@@ -160,6 +162,7 @@ theorem tie_cacheDoGetCalls : cacheDoGetCalls = [
 
 /-- `onEvict`: the evicted key's timer is removed -/
 theorem tie_cacheOnEvictCalls : cacheOnEvictCalls = [
+  ("call", "delete", ["c.data", "key"]),
   ("call", "c.timingWheel.RemoveTimer", ["key"])
 ] := by decide
 
@@ -193,6 +196,7 @@ theorem tie_newCacheStatCalls : newCacheStatCalls = [
 theorem tie_lruAddCalls : lruAddCalls = [
   ("call", "klru.evicts.MoveToFront", ["elem"]),
   ("call", "klru.evicts.PushFront", ["key"]),
+  ("store", "klru.elements", ["key", "elem"]),
   ("call", "klru.evicts.Len", []),
   ("call", "klru.removeOldest", [])
 ] := by decide
@@ -211,6 +215,7 @@ theorem tie_lruRemoveOldestCalls : lruRemoveOldestCalls = [
 /-- `keyLru.removeElement`: the list element, then onEvict with its key -/
 theorem tie_lruRemoveElementCalls : lruRemoveElementCalls = [
   ("call", "klru.evicts.Remove", ["e"]),
+  ("call", "delete", ["klru.elements", "key"]),
   ("call", "klru.onEvict", ["key"])
 ] := by decide
 
@@ -273,7 +278,63 @@ theorem tie_queueEmptyCalls : queueEmptyCalls = [
 /-- `Take`: read lock, deferred unlock -/
 theorem tie_ringTakeCalls : ringTakeCalls = [
   ("call", "r.lock.RLock", []),
-  ("defer", "r.lock.RUnlock", [])
+  ("defer", "r.lock.RUnlock", []),
+  ("store", "elements", ["i", "r.elements[(start+i)%rlen]"])
 ] := by decide
+
+
+/-! ### round 5c: Go `int` width of the ring index; RollingWindow with an interval ≤ 0 -/
+
+theorem wrap64_id (x : Int) (h1 : -9223372036854775808 ≤ x) (h2 : x < 9223372036854775808) : wrap64 x = x := by
+  unfold wrap64; omega
+
+/-- **`Ring.Add` does not overflow.**  With the index inside `[0, 2·rlen)` (`ring_index_lt_2n`: every reachable state) and
+`rlen < 2^62` (a slice of 2^62 interface values — 2^66 bytes — cannot be allocated), the 64-bit computation of the
+translated statements (`ringAddIndexW`: every intermediate result wrapped) is the unbounded one the model was proven
+about (`ringAddIndex`, `tie_ringAddIndex`), and the new index is inside `[0, 2·rlen)` again. -/
+theorem tie_ringAddIndex_width (index rlen : Int) (h0 : 0 ≤ index) (h1 : index < 2 * rlen)
+    (hn : rlen < 4611686018427387904) :
+    ringAddIndexW index rlen = ringAddIndex index rlen
+    ∧ 0 ≤ ringAddIndex index rlen ∧ ringAddIndex index rlen < 2 * rlen := by
+  unfold ringAddIndexW ringAddIndex
+  rw [wrap64_id (index + 1) (by omega) (by omega), wrap64_id (rlen * 2) (by omega) (by omega)]
+  simp only [ge_iff_le, decide_eq_true_eq]
+  by_cases h : rlen * 2 ≤ index + 1
+  · rw [wrap64_id (index + 1 - rlen) (by omega) (by omega)]
+    simp only [h, if_true]
+    exact ⟨trivial, by omega, by omega⟩
+  · simp only [h, if_false]
+    exact ⟨trivial, by omega, by omega⟩
+
+/-- at the very edge the hypothesis is needed: with `rlen = 2^62` the guard `rlen<<1` wraps to `-2^63` and the index is
+folded back on the first Add -/
+example : ringAddIndexW 0 4611686018427387904 ≠ ringAddIndex 0 4611686018427387904 := by decide
+
+/-- **`span()` with a negative interval** (clock not behind `lastTime`): 0 while less than `|interval|` has passed, `size`
+from then on — so `Reduce` visits nothing and the next `Add` resets every bucket.  The property speaks about "the last
+`size` intervals" and has no reading for intervals of negative length: `interval ≥ 1` is an explicit hypothesis (`hi`) of
+every RollingWindow theorem.  (For `interval = 0` Go panics with a division by zero in every `Add` / `Reduce`; Lean's
+`Int.tdiv x 0 = 0`, so the translated `rwSpan` does not describe that case.) -/
+theorem tie_rwSpan_negativeInterval (lastTime now a size : Nat) (h : lastTime ≤ now) (ha : 0 < a) :
+    rwSpan lastTime now (-(a : Int)) size = (RW.spanNeg lastTime now a size : Int) := by
+  unfold rwSpan clockSince RW.spanNeg
+  have e : ((now : Int) - (lastTime : Int)) = ((now - lastTime : Nat) : Int) := by omega
+  rw [e, Int.tdiv_neg]
+  have e2 : Int.tdiv ((now - lastTime : Nat) : Int) (a : Int) = (((now - lastTime) / a : Nat) : Int) := by
+    rw [Int.tdiv_eq_ediv_of_nonneg (by omega)]; norm_cast
+  rw [e2]
+  by_cases hlt : now - lastTime < a
+  · have : (now - lastTime) / a = 0 := Nat.div_eq_of_lt hlt
+    rw [this]
+    by_cases hz : (0 : Int) < (size : Int)
+    · simp [hlt]
+    · have : size = 0 := by omega
+      simp [hlt, this]
+  · have hq : 1 ≤ (now - lastTime) / a := (Nat.one_le_div_iff ha).2 (by omega)
+    generalize (now - lastTime) / a = q at hq ⊢
+    simp [hlt]
+    intro h0; omega
+
+example : rwSpan 10 14 (-5) 3 = 0 ∧ rwSpan 10 15 (-5) 3 = 3 ∧ rwSpan 10 99 (-5) 3 = 3 := by decide
 
 end GoZero.C16.TieR5
